@@ -138,6 +138,25 @@ class Iface:
         owners = [c for c in PRIMITIVES if name in self.X.P.attr_names(c)]
         cn = core.cname(core.SH(v))
         out = []
+        if owners and "Select" not in owners and name not in ("__class__",):
+            # Select.__getattr__ forwards every attribute it does not have to its cut: on an operand that may be a
+            # Select the lookup can succeed with whatever the cut holds
+            rest = []
+            for s, is_sel in self.X.branch(st, cn == core.strlit("Select")):
+                if not is_sel:
+                    rest.append(s)
+                    continue
+                if name in ("sum", "mean", "varianceTimesEntries", "min", "max"):
+                    f, wf = Fl.sym(f"havoc.{name}!{core.uid()}")
+                    s2 = s.fork()
+                    s2.add(wf)
+                    out.append(Res(s2, VFl(f)))
+                    out.extend(self.X.raise_(s, "AttributeError", name))
+                    continue
+                raise Unsupported(f"attribute {name} of an operand that may be a Select (forwarded to its cut)")
+            if not rest:
+                return out
+            st = rest[0]
         for s, has in self.X.branch(st, z3.Or([cn == core.strlit(c) for c in owners] or [z3.BoolVal(False)])):
             if has:
                 # a field of the other primitive's representation: the child contract does not expose it, so
